@@ -11,12 +11,16 @@
 (***************************************************************************)
 EXTENDS Metrics, TLC
 
-CONSTANTS Mode, MaxLen, MaxLenB, Level, SimMinLen, SimMaxLen
+CONSTANTS Mode, MaxLen, MaxLenB, MaxLenFam, TopCombos, Level, SimMinLen, SimMaxLen,
+          Part1, Part2     \* BFS partition: index (1..5) of the first / second symbol, 0 = any (the harness runs the parts concurrently)
 
 VARIABLES st, exp
 vars == <<st, exp>>
 
-Alpha    == {1, 2, 3, 5, 8}
+AlphaSeq == <<1, 2, 3, 5, 8>>
+Alpha    == {AlphaSeq[i] : i \in DOMAIN AlphaSeq}
+InPart(s) == /\ (Part1 # 0 /\ Len(s) >= 1) => s[1] = AlphaSeq[Part1]
+             /\ (Part2 # 0 /\ Len(s) >= 2) => s[2] = AlphaSeq[Part2]
 BAlpha   == {1, 2, 5}
 SimAlpha == 50 .. 150
 
@@ -36,7 +40,7 @@ Combo(c) == CASE c = 1 -> [im |-> 1440,   f |-> 1]     \* daily
               [] c = 6 -> [im |-> 10080,  f |-> 1]     \* weekly: 365/(7n) never an integer
               [] c = 7 -> [im |-> 720,    f |-> 4]
               [] c = 8 -> [im |-> 43200,  f |-> 3]     \* 30 days
-Combos == IF Mode = 2 THEN 1 .. 8 ELSE IF Level > 1 THEN 1 .. 8 ELSE 1 .. 5
+Combos == IF Mode = 2 THEN 1 .. 8 ELSE IF Level > 1 THEN 1 .. 8 ELSE 1 .. 4
 
 (* benchmark families *)
 Cyc(p, i) == p[((i - 1) % Len(p)) + 1]
@@ -47,7 +51,9 @@ BenchFam(j, s) == CASE j = 1 -> [i \in DOMAIN s |-> Cyc(<<1, 2, 3, 5, 8>>, i)]
                     [] j = 5 -> Tail(s) \o <<s[1]>>
 BenchPairs == {<<1, 1>>, <<1, 2>>, <<1, 3>>, <<1, 4>>, <<1, 5>>, <<3, 2>>, <<2, 3>>}
               \cup (IF Level > 1 \/ Mode = 2 THEN {<<6, 2>>, <<7, 5>>, <<8, 1>>, <<5, 3>>} ELSE {})
-EnumCombos == {1, 3}
+EnumCombos == IF Level > 1 THEN {1, 3} ELSE {1}
+(* series of the full length MaxLen are evaluated under combos 1 .. TopCombos only (keeps the quick tier small) *)
+CombosFor(n) == IF Mode = 1 /\ n = MaxLen THEN {c \in Combos : c <= TopCombos} ELSE Combos
 
 Rfs    == <<QOf(3, 100), Zero, QOf(1, 20)>>
 Scales == <<QI(1000), QOf(1, 8), QI(3)>>
@@ -64,6 +70,7 @@ Start(n) == /\ Mode = 2 /\ st.ph = "v" /\ st.tgt = 0
 
 Push(x) == /\ st.ph = "v"
            /\ IF Mode = 1 THEN Len(st.v) < MaxLen ELSE Len(st.v) < st.tgt
+           /\ Mode = 1 => InPart(Append(st.v, x))
            /\ st' = [st EXCEPT !.v = Append(@, x)]
            /\ exp' = exp
 
@@ -74,6 +81,7 @@ CloseNoB(c) == /\ Closable
                /\ exp' = exp
 
 CloseFam(c, j) == /\ Closable
+                  /\ Mode = 2 \/ Len(st.v) <= MaxLenFam
                   /\ st' = [st EXCEPT !.ph = "ready", !.c = c, !.b = BenchFam(j, st.v)]
                   /\ exp' = exp
 
@@ -94,7 +102,7 @@ Evaluate == /\ st.ph = "ready"
 
 Next == \/ \E n \in SimMinLen .. SimMaxLen : Start(n)
         \/ \E x \in (IF Mode = 1 THEN Alpha ELSE SimAlpha) : Push(x)
-        \/ \E c \in Combos : CloseNoB(c)
+        \/ \E c \in CombosFor(Len(st.v)) : CloseNoB(c)
         \/ \E p \in BenchPairs : CloseFam(p[1], p[2])
         \/ \E c \in (IF Mode = 2 THEN Combos ELSE EnumCombos) : CloseEnum(c)
         \/ \E y \in (IF Mode = 1 THEN BAlpha ELSE SimAlpha) : PushB(y)
